@@ -661,7 +661,6 @@ func isZeroConst(k *ssa.Const) bool {
 	return false
 }
 
-
 // c07SharedLeaves resolves the header value handed to Ammo.Setup through phis, type changes and (package-local)
 // parameters down to its sources, and returns those that are not fresh maps (Header.Clone() results or make). For each
 // it says, in why, what mutates the underlying map (empty: nothing does - a decoder field that is only read).
